@@ -121,7 +121,8 @@ def run_property(pid: str, tier: str, seed: int, replay: str | None) -> int:
             print("implementation:", impl)
             print("model         :", model)
             print("oracle        :", orc if orc else "holds / none")
-            bad = impl != model or bool(orc)
+            cn = getattr(mod, "canon", None)
+            bad = (cn(op, impl) if cn else impl) != (cn(op, model) if cn else model) or bool(orc)
             if bad:
                 print("VIOLATION property=%s replay=%s" % (pid, replay))
             return 1 if bad else 0
@@ -147,6 +148,7 @@ def run_property(pid: str, tier: str, seed: int, replay: str | None) -> int:
     model_out = lib.run_driver([o[0] for o in ops])
 
     has_oracle = hasattr(mod, "oracle")
+    canon = getattr(mod, "canon", None)
     diffs = []
     for (op, impl, kind), mo in zip(ops, model_out):
         ctx.kind_hist[kind] = ctx.kind_hist.get(kind, 0) + 1
@@ -157,7 +159,9 @@ def run_property(pid: str, tier: str, seed: int, replay: str | None) -> int:
             n_oracle_checked += 1
             if why:
                 ctx.violation(why, op, expected="property holds on the implementation", observed=impl, kind="oracle")
-        if impl != mo:
+        # optional canonicalisation of both answers before they are compared (what the property does not speak about, e.g.
+        # WHICH rule rejected a transaction, must not raise an alarm)
+        if (canon(op, impl) if canon else impl) != (canon(op, mo) if canon else mo):
             diffs.append((op, impl, mo))
 
     # 5. broken correspondence: search the neighbourhood for an input on which the property itself fails
